@@ -15,6 +15,7 @@ USED = ("zero-sized element types; element types without drop glue; `Copy` eleme
  "internal constants / thresholds on chunk sizes, queue distances or source lengths (4096, 2^16, 2^20, u32::MAX); chunks of many thousands of positions; more than 8 threads; references that are not adjacent in memory; empty (size 0) chunk requests; the user's closure pulling from the same iterator; repeated skip_to_end on huge ranges; "
  "two concurrent iterators nested (one wrapping values() of the other); thread-local state; zero-size chunk requests racing with pulls under every interleaving of their atomic accesses; "
  "the size of the element type (size_of::<T>() from 8 bytes to 64 KiB against any byte budget); ill-formed size hints (lower above upper); clones beyond isize::MAX; "
+ "the From/Into conversions as the entry point; std's endless-iterator hint (usize::MAX, None); "
  "a wrapped iterator whose *type* is zero-sized; re-entrancy (the wrapped iterator's next() querying or skipping the concurrent iterator around it); new Clone / Drop / Iterator-method impls or new struct fields (the set of impls, overridden methods, derives and fields is compared against a fixed list)")
 for p in sys.argv[1:]:
     P = props[p]
